@@ -262,9 +262,9 @@ func intersect(a, b lockset) lockset {
 }
 
 type fnLocks struct {
-	mustAt map[ssa.Instruction]lockset // must-hold before the instruction
-	mayAtReturn map[*ssa.Return]lockset // locks possibly still held (not by defer) at a return
-	ops    []lockOp
+	mustAt      map[ssa.Instruction]lockset // must-hold before the instruction
+	mayAtReturn map[*ssa.Return]lockset     // locks possibly still held (not by defer) at a return
+	ops         []lockOp
 }
 
 type lockModel struct {
